@@ -120,6 +120,7 @@ def load_package(root: Optional[Path] = None) -> Package:
     if not pkg_dir.is_dir():
         raise AnalysisError(f"anchor vanished: package directory {pkg_dir} not found")
     package = Package(root=root, src_dir=src_dir)
+    parsed = []
     for path in sorted(pkg_dir.rglob("*.py")):
         rel = path.relative_to(src_dir).with_suffix("")
         parts = list(rel.parts)
@@ -131,10 +132,16 @@ def load_package(root: Optional[Path] = None) -> Package:
             tree = ast.parse(source, filename=str(path))
         except SyntaxError as exc:
             raise AnalysisError(f"{path}: does not parse: {exc}") from exc
-        if not os.environ.get("VERIF_NO_CANON"):
-            from . import canon
+        parsed.append((name, path, source, tree))
+    sigs = None
+    if not os.environ.get("VERIF_NO_CANON"):
+        from . import canon
 
-            tree = canon.canonicalise(tree)  # spelling-level canonical forms (sa/canon.py): `x if not c else y`, `not a == b`, dict()/list()/tuple()
+        sigs = canon.signature_table([t for _, _, _, t in parsed])
+    for name, path, source, tree in parsed:
+        if sigs is not None:
+            # spelling-level canonical forms (sa/canon.py): `x if not c else y`, `not a == b`, dict()/list()/tuple(), chained comparisons, guard clauses, f(a, b=x)
+            tree = canon.canonicalise(tree, sigs=sigs)
         _set_parents(tree)
         if not os.environ.get("VERIF_NO_ALPHA"):
             from . import alpha
@@ -145,6 +152,20 @@ def load_package(root: Optional[Path] = None) -> Package:
         package.modules[name] = Module(name=name, path=path, source=source, tree=tree, digest=hashlib.sha256(source.encode()).hexdigest())
     _CACHE[key] = package
     return package
+
+
+def call_args(node: ast.Call, params) -> Dict[str, ast.AST]:
+    """Arguments of a call by parameter name, whether they were passed by position or by keyword (``params`` without self/cls)."""
+    out: Dict[str, ast.AST] = {}
+    for i, a in enumerate(node.args):
+        if isinstance(a, ast.Starred):
+            break
+        if i < len(params):
+            out[params[i]] = a
+    for k in node.keywords:
+        if k.arg:
+            out[k.arg] = k.value
+    return out
 
 
 def unparse(node: Optional[ast.AST]) -> str:
